@@ -181,11 +181,24 @@ def rval(x):
     raise TypeError(type(x))
 
 
-def optimized_cli(ctx, stem, text_in):
-    """conditionalrewards.py -f ... -s under `python -O` writes the same report as under the normal interpreter
-    (the elapsed time aside)"""
+CLI_ENVIRONMENTS = [("python -O", ("-O",), {}),
+                    ("ASCII-only standard streams (PYTHONIOENCODING=ascii)", (), {"PYTHONIOENCODING": "ascii"}),
+                    ("C locale, no UTF-8 mode", (), {"LC_ALL": "C", "LANG": "C", "PYTHONUTF8": "0", "PYTHONCOERCECLOCALE": "0"}),
+                    ("LANG names a locale that is not installed", (), {"LANG": "xx_YY.UTF-8", "LC_ALL": "", "LC_CTYPE": "xx_YY.UTF-8"}),
+                    ("warnings are errors (PYTHONWARNINGS=error)", (), {"PYTHONWARNINGS": "error"})]
+
+
+def optimized_cli(ctx, stem, text_in, variants=None):
+    """conditionalrewards.py -f ... -s under `python -O` (and, for ASCII-only inputs, under other process
+    environments) writes the same report as under the normal interpreter (the elapsed time aside)"""
+    for label, flags, env_extra in (variants or CLI_ENVIRONMENTS[:1]):
+        if not _cli_pair(ctx, stem, text_in, label, flags, env_extra):
+            return
+
+
+def _cli_pair(ctx, stem, text_in, label, vflags, env_extra):
     reports = []
-    for flags in ((), ("-O",)):
+    for flags, extra in (((), {}), (vflags, env_extra)):
         d = tempfile.mkdtemp(prefix="crv_")
         try:
             os.mkdir(os.path.join(d, "inputs"))
@@ -193,23 +206,26 @@ def optimized_cli(ctx, stem, text_in):
             open(os.path.join(d, "inputs", stem + ".py"), "w", encoding="utf-8").write(text_in)
             env = {k: v for k, v in os.environ.items() if k != "PYTHONOPTIMIZE"}
             env.update(PYTHONPATH=REPO, PYTHONDONTWRITEBYTECODE="1")
+            env.update(extra)
             try:
                 p = subprocess.run([sys.executable, *flags, os.path.join(REPO, "conditionalrewards.py"), "-f", f"inputs/{stem}.py", "-s"], cwd=d,
                                    capture_output=True, text=True, timeout=120, env=env)
             except subprocess.TimeoutExpired:
                 ctx.count("skipped_nonterminating_input")
-                return
+                return True
             out = os.path.join(d, "outputs", stem + ".txt")
             rep = open(out, encoding="utf-8", errors="replace").read() if os.path.exists(out) else f"<no report, rc={p.returncode}>"
             reports.append("\n".join(ln for ln in rep.split("\n") if not ln.startswith("Total time")))
         finally:
             shutil.rmtree(d, ignore_errors=True)
-    ctx.case({"stem": stem, "interpreter": "python -O", "file_text": text_in}, True)
+    ctx.case({"stem": stem, "interpreter": label, "file_text": text_in}, True)
     if reports[0] != reports[1]:
         a, b = reports[0].split("\n"), reports[1].split("\n")
         k = next((i for i, (x, y) in enumerate(zip(a, b)) if x != y), min(len(a), len(b)))
-        ctx.violation("report-states-what-was-computed", {"stem": stem, "interpreter": "python -O", "file_text": text_in},
-                      {"first_differing_line": k, "normal": a[k][:200] if k < len(a) else None, "python -O": b[k][:200] if k < len(b) else None})
+        ctx.violation("report-states-what-was-computed", {"stem": stem, "interpreter": label, "file_text": text_in},
+                      {"first_differing_line": k, "normal": a[k][:200] if k < len(a) else None, label: b[k][:200] if k < len(b) else None})
+        return False
+    return True
 
 
 def run(ctx, model=None):
@@ -268,6 +284,8 @@ def run(ctx, model=None):
     for order in (("differ_1", "dead_1", "bad_1", "differ_2"), ("dead_1", "differ_1", "bad_1"), ("differ_1", "bad_1", "dead_1")):
         pool_ = {"differ_1": differ, "differ_2": differ, "dead_1": dead, "bad_1": nb_bad}
         check_file(ctx, "flag_carry_" + "_".join(o[0] for o in order), render_game_file([(o, pool_[o]) for o in order]), model)
+    # an ASCII-only file under the process environments of a cron job / container / CI runner: identical report
+    optimized_cli(ctx, "env_1", render_game_file([("differ_1", differ), ("dead_1", dead), ("differ_2", differ)]), variants=CLI_ENVIRONMENTS)
     # the same file through `python -O` (asserts stripped, __debug__ False): identical report
     optimized_cli(ctx, "opt_1", render_game_file([("g_1", nb), ("bad", nb_bad)]))
     # the input given through a symbolic link with another name
